@@ -971,3 +971,40 @@ def render_op(inp, W):
             if text.endswith("\n"): text = text[:-1]
         else: text = obj.to_string(**kw)
     return {"text": text, "recv": obj}
+
+# ---------------------------------------------------------------------------- C12 file round trips
+
+@op
+def file_roundtrip(inp, W):
+    """write the object with write_<fmt>(path, **wopts), read it back with read_<fmt>(path, **ropts)"""
+    import os, shutil, tempfile
+    di = W.di
+    obj = inp["obj"]; fmt = inp["fmt"]; suffix = inp["suffix"]
+    wopts = {k: v for k, v in inp["wopts"]}; ropts = {k: v for k, v in inp["ropts"]}
+    cls = di.ListOfDicts if inp["cls"] == "ListOfDicts" else di.DataFrame
+    name = f"t.{fmt}{suffix}"
+    if W.sym:
+        from . import fsstub
+        util = __import__("dataiter.util", fromlist=["x"]); dfm = __import__("dataiter.data_frame", fromlist=["x"])
+        lm = __import__("dataiter.list_of_dicts", fromlist=["x"])
+        fs = fsstub.FS()
+        path = "/stub/" + name
+        with fsstub.install(fs, W, util, dfm, lm):
+            getattr(obj, f"write_{fmt}")(path, **wopts)
+            written = fs.files.get(path)
+            codec = written.codec if written is not None else None
+            back = getattr(cls, f"read_{fmt}")(path, **ropts)
+        return {"codec": codec, "back": back, "recv": obj}
+    d = tempfile.mkdtemp(prefix="vf_c12_")
+    try:
+        path = os.path.join(d, name)
+        getattr(obj, f"write_{fmt}")(path, **wopts)
+        codec = None
+        if os.path.exists(path):
+            head = open(path, "rb").read(6)
+            codec = ("gz" if head[:2] == bytes([0x1f, 0x8b]) else "bz2" if head[:3] == b"BZh" else
+                     "xz" if head[:6] == bytes([0xfd, 0x37, 0x7a, 0x58, 0x5a, 0x00]) else "zip" if head[:2] == b"PK" else "none")
+        back = getattr(cls, f"read_{fmt}")(path, **ropts)
+        return {"codec": codec, "back": back, "recv": obj}
+    finally:
+        shutil.rmtree(d, ignore_errors=True)
